@@ -1,6 +1,7 @@
 package main
 
 import (
+	"go/token"
 	"fmt"
 	"go/ast"
 	"go/types"
@@ -76,6 +77,7 @@ func runC07(c *Ctx) {
 	jsonTables(c, "lib.Result", res, "jsonResult", nil)
 	c09JSONDecoder(c) // round trip "for arbitrary bodies": lines of any length, copied, complete
 	csvEncFields, csvDecFields := c07CSV(c, res)
+	c07EOFUnwrapped(c)
 	eqFields := equalFields(c, "Result.Equal", "r", "other")
 
 	// exhaustiveness
@@ -719,5 +721,154 @@ func c07Docs(c *Ctx, encField []string) {
 			got = append(got, f)
 		}
 		c.Check(strings.Join(got, ",") == strings.Join(encField, ","), key, rule, fmt.Sprintf("%d documented columns in encoder order", len(items)), fmt.Sprintf("documented order %v differs from the encoder's %v", got, encField), name)
+	}
+}
+
+// c07EOFUnwrapped: "followed by end-of-stream". Every consumer (encode, report, plot, the
+// round-robin decoder's callers) recognises the end by err == io.EOF, so a decoder hands the
+// stream reader's error on as it is. An error that may be io.EOF must not go through a wrapping
+// call (fmt.Errorf, errors.Join, a helper returning error) unless the path excludes io.EOF first.
+func c07EOFUnwrapped(c *Ctx) {
+	const rule = "the result decoders return the stream reader's error unwrapped (consumers test err == io.EOF): no error that may be io.EOF is passed to a call that builds another error, unless a dominating test excluded io.EOF"
+	errT := types.Universe.Lookup("error").Type()
+	isStreamRead := func(v ssa.Value) bool {
+		if ex, ok := v.(*ssa.Extract); ok {
+			v = ex.Tuple
+		}
+		call, ok := v.(*ssa.Call)
+		if !ok {
+			return false
+		}
+		if call.Call.IsInvoke() {
+			return true // a method of some reader interface
+		}
+		f := call.Call.StaticCallee()
+		if f == nil || f.Pkg == nil {
+			return true
+		}
+		switch f.Pkg.Pkg.Path() {
+		case "encoding/csv", "encoding/gob", "bufio", "io":
+			return true
+		}
+		return false
+	}
+	isEOFLoad := func(v ssa.Value) bool {
+		g := loadedGlobal(v)
+		return g != nil && g.Name() == "EOF" && g.Pkg != nil && g.Pkg.Pkg.Path() == "io"
+	}
+	for _, name := range []string{"NewDecoder", "NewCSVDecoder", "NewJSONDecoder"} {
+		outer := c.P.Func("lib", name)
+		key := "eof-unwrapped:lib." + name
+		if outer == nil {
+			c.Undecided(key, rule, "lib."+name+" not found")
+			continue
+		}
+		var fns []*ssa.Function
+		seenFn := map[*ssa.Function]bool{}
+		for _, f := range region(outer) {
+			for _, g := range withAnon(f) {
+				if !seenFn[g] {
+					seenFn[g] = true
+					fns = append(fns, g)
+				}
+			}
+		}
+		var bad []ssa.Instruction
+		for _, fn := range fns {
+			c.Saw("function " + shortFn(fn))
+			eachInstr(fn, func(i ssa.Instruction) {
+				call, ok := i.(*ssa.Call)
+				if !ok || call.Call.IsInvoke() {
+					return
+				}
+				sig := call.Call.Signature()
+				retErr := false
+				for k := 0; k < sig.Results().Len(); k++ {
+					if types.Identical(sig.Results().At(k).Type(), errT) {
+						retErr = true
+					}
+				}
+				if !retErr {
+					return
+				}
+				// error-typed inputs: direct arguments and the elements of a variadic slice
+				var ins []ssa.Value
+				for _, a := range call.Call.Args {
+					if types.Identical(a.Type(), errT) {
+						ins = append(ins, a)
+					}
+					if sl, isSl := a.(*ssa.Slice); isSl {
+						if al, isAl := sl.X.(*ssa.Alloc); isAl {
+							for _, r := range refs(al) {
+								ia, isIA := r.(*ssa.IndexAddr)
+								if !isIA {
+									continue
+								}
+								for _, r2 := range refs(ia) {
+									if st, isSt := r2.(*ssa.Store); isSt {
+										v := st.Val
+										if ci, isCI := v.(*ssa.ChangeInterface); isCI {
+											v = ci.X
+										}
+										if types.Identical(v.Type(), errT) {
+											ins = append(ins, v)
+										}
+									}
+								}
+							}
+						}
+					}
+				}
+				for _, e := range ins {
+					// a value that is directly the error of a non-stream call (strconv, base64, ...) is never io.EOF's carrier
+					if _, isLd := isLoad(e); !isLd {
+						if !flowsFrom(e, isStreamRead) {
+							continue
+						}
+					} else if ld, _ := isLoad(e); ld != nil {
+						if _, isAl := ld.X.(*ssa.Alloc); isAl && !flowsFrom(e, isStreamRead) {
+							continue
+						}
+					}
+					guarded := false
+					for _, f := range factsAt(call.Block()) {
+						switch x := f.Cond.(type) {
+						case *ssa.BinOp:
+							if x.Op != token.EQL && x.Op != token.NEQ {
+								continue
+							}
+							var other ssa.Value
+							if isEOFLoad(x.Y) {
+								other = x.X
+							} else if isEOFLoad(x.X) {
+								other = x.Y
+							} else {
+								continue
+							}
+							if sameLoadedValue(other, e) && (x.Op == token.NEQ) == f.Val {
+								guarded = true
+							}
+						case *ssa.Call:
+							if callName(&x.Call) == "errors.Is" && len(x.Call.Args) == 2 && isEOFLoad(x.Call.Args[1]) && sameLoadedValue(x.Call.Args[0], e) && !f.Val {
+								guarded = true
+							}
+						}
+					}
+					if !guarded {
+						bad = append(bad, call)
+					}
+				}
+			})
+		}
+		sortInstrs(bad)
+		var sites []string
+		for _, fn := range fns {
+			sites = append(sites, c.fnAt(fn))
+		}
+		if len(bad) > 0 {
+			c.Fail(key, rule, "an error that may be io.EOF is wrapped before it is returned: consumers comparing with io.EOF never see the end of the stream", c.ats(bad)...)
+			continue
+		}
+		c.Pass(key, rule, "no possibly-EOF error reaches an error-building call", sites...)
 	}
 }
